@@ -1,4 +1,371 @@
-import OvniModel.Rt.Fs
+import OvniModel.Lemmas.FsFault
+import OvniModel.Lemmas.FsWitness
+import OvniModel.Props.C09
+
+/-!
+# C10 — I/O faults are never silent
+
+Model: `OvniModel/Rt/Fs.lean`, `faultAt`: the `i`-th libc call of the run fails
+(errno class, or short count for write/fwrite/fputs), then the runtime does
+what the C code does after that failure (`cont`).  Outcome: `die fs`
+(abort()) or `returned fs`.
+
+* `single_fault_not_silent_partial` — for every program, every call index,
+  every fault kind: if the failing call is at a call site whose result the code
+  checks (or whose failure is harmless: fclose(infile), remove, closedir,
+  rmdir), then either the runtime aborts — and a complete copy of every
+  thread's flushed bytes is still on disk — or it returns with the final trace
+  of every freed thread complete.  In particular direct mode except
+  `close(streamfd)`.
+* `…_fails` — for the code as it stands the full statement is FALSE; one
+  witness per unchecked call site:
+  `close_streamfd_unchecked`, `move_opendir_failure_silent`,
+  `move_readdir_failure_silent`, `move_ignores_copy_errors` (fwrite; fclose of
+  the copy; fopen of the destination), the last ones destroying the only
+  complete copy.
+-/
+set_option linter.unusedSimpArgs false
 namespace Ovni.Props.C10
-theorem placeholder : True := trivial
+open Ovni.Rt Ovni.Rt.Fs
+open Ovni.Props.C09 (WellFormed ReaddirOrder crashState)
+
+/-- The final trace of thread `t` is complete: its stream.obs holds every byte
+    the thread flushed, its stream.json is whole and says finished. -/
+def Complete (C : Codec) (t : ThreadProg) (s : Fs) : Prop :=
+  s.get (.file .fin t.tid .obs) = some (.file t.obsBytes []) ∧
+  s.get (.file .fin t.tid .json) = some (.file (C.ser ⟨true, t.metaF⟩) []) ∧
+  s.flushed t.tid = t.obsBytes
+
+/-- Some tree still has a stream.obs with every byte thread `tid` flushed. -/
+def CopyExists (s : Fs) (tid : Nat) : Prop :=
+  s.flushed tid = [] ∨ ∃ r d pn, s.get (.file r tid .obs) = some (.file d pn) ∧ d = s.flushed tid
+
+/-- The fault was not silent. -/
+def NotSilent (C : Codec) (p : Prog) : Outcome → Prop
+  | .die s => ∀ t ∈ p.threads, CopyExists s t.tid
+  | .returned s => ∀ t ∈ p.threads, t.free = true → Complete C t s ∧ CopyExists s t.tid
+  | .killed _ => False
+
+theorem copyExists_iff (s : Fs) (tid : Nat) : CopyExists s tid ↔ NoLoss (viewOf s tid) := by
+  unfold CopyExists NoLoss
+  rw [Fs.flushed_eq]
+  constructor
+  · rintro (h | ⟨r, d, pn, h1, h2⟩)
+    · exact Or.inl h
+    · exact Or.inr ⟨r, d, pn, by cases r <;> exact h1, h2⟩
+  · rintro (h | ⟨r, d, pn, h1, h2⟩)
+    · exact Or.inl h
+    · exact Or.inr ⟨r, d, pn, by cases r <;> exact h1, h2⟩
+
+/-- After every prefix of the fault-free run a complete copy exists. -/
+theorem copy_at_crash (C : Codec) (p : Prog) (hwf : WellFormed p) (hm : p.tmpMode = false ∨ ReaddirOrder p)
+    (t : ThreadProg) (ht : t ∈ p.threads) (k : Nat) : CopyExists (crashState C p k) t.tid := by
+  rw [copyExists_iff]
+  obtain ⟨k', hk'⟩ := view_at_crash C.ser p t ht hwf k
+  unfold crashState
+  rw [hk']
+  cases hp : p.tmpMode with
+  | false => exact ((thread_direct C p t hp _ rfl).1 k').noLoss
+  | true =>
+    rcases hm with hm | hm
+    · rw [hp] at hm; cases hm
+    · exact (thread_tmp_noloss C p t hp (Witness.streamEntries_of_perm hm) _ rfl).1 k'
+
+/-- The fault-free run leaves every freed thread complete. -/
+theorem complete_at_end (C : Codec) (p : Prog) (hwf : WellFormed p) (hm : p.tmpMode = false ∨ ReaddirOrder p)
+    (t : ThreadProg) (ht : t ∈ p.threads) (hf : t.free = true) :
+    Complete C t (run p.init (ops (calls C.ser p))) := by
+  have hv := view_at_end C.ser p t ht hwf
+  have hd : vrun t.tid View.empty (ops (threadCalls C.ser p t)) = doneView C t := by
+    cases hp : p.tmpMode with
+    | false => exact (thread_direct C p t hp _ rfl).2 hf
+    | true =>
+      rcases hm with hm | hm
+      · rw [hp] at hm; cases hm
+      · exact (thread_tmp_noloss C p t hp (Witness.streamEntries_of_perm hm) _ rfl).2 hf
+  rw [hd] at hv
+  have h1 : (run p.init (ops (calls C.ser p))).get (.file .fin t.tid .obs) = F t.obsBytes := congrArg View.ofn hv
+  have h2 : (run p.init (ops (calls C.ser p))).get (.file .fin t.tid .json) = F (C.ser ⟨true, t.metaF⟩) :=
+    congrArg View.jf hv
+  have h3 : (run p.init (ops (calls C.ser p))).get (.ghost t.tid) = F t.obsBytes := congrArg View.g hv
+  exact ⟨h1, h2, by rw [Fs.flushed_eq, h3]; rfl⟩
+
+theorem complete_copy {C : Codec} {t : ThreadProg} {s : Fs} (h : Complete C t s) : CopyExists s t.tid :=
+  Or.inr ⟨.fin, _, [], h.1, h.2.2.symm⟩
+
+/-- `Complete` only reads the final-tree entries and the ghost log. -/
+theorem complete_congr {C : Codec} {t : ThreadProg} {s s' : Fs}
+    (h : ∀ q, q.isLeaf = true → (∀ tid n, q ≠ .file .tmp tid n) → s'.get q = s.get q)
+    (hc : Complete C t s) : Complete C t s' := by
+  refine ⟨?_, ?_, ?_⟩
+  · rw [h _ rfl (by simp)]; exact hc.1
+  · rw [h _ rfl (by simp)]; exact hc.2.1
+  · rw [Fs.flushed_eq, h _ rfl (by simp), ← Fs.flushed_eq]; exact hc.2.2
+
+theorem returned_ok {C : Codec} {p : Prog} {s : Fs}
+    (h : ∀ t ∈ p.threads, t.free = true → Complete C t s) : NotSilent C p (.returned s) :=
+  fun t ht hf => ⟨h t ht hf, complete_copy (h t ht hf)⟩
+
+/-! ### C10 -/
+
+theorem single_fault_not_silent_partial (C : Codec) (p : Prog) (hwf : WellFormed p)
+    (hm : p.tmpMode = false ∨ ReaddirOrder p) (i : Nat) (f : Fault) (kept : Nat)
+    (hchk : ∀ c, (calls C.ser p)[i]? = some c → c.site.unchecked = false) :
+    NotSilent C p (faultAt C.ser p i f kept) := by
+  have hend : NotSilent C p (.returned (run p.init (ops (calls C.ser p)))) :=
+    returned_ok (fun t ht hf => complete_at_end C p hwf hm t ht hf)
+  unfold faultAt
+  simp only
+  cases hci : (calls C.ser p)[i]? with
+  | none => exact hend
+  | some c =>
+    simp only
+    by_cases hfire : fires c.op f = true
+    case neg => rw [if_neg hfire]; exact hend
+    rw [if_pos hfire, show Fs.run p.init (ops (List.take i (calls C.ser p))) = crashState C p i from rfl]
+    have hck := hchk c hci
+    have hmem : c ∈ calls C.ser p := List.mem_of_getElem? hci
+    have hso := siteOk_calls C.ser p c hmem
+    have hsplit : calls C.ser p = (calls C.ser p).take i ++ c :: (calls C.ser p).drop (i + 1) := by
+      have hi : i < (calls C.ser p).length := by
+        rcases Nat.lt_or_ge i (calls C.ser p).length with h | h
+        · exact h
+        · rw [List.getElem?_eq_none h] at hci; cases hci
+      have hc : (calls C.ser p)[i] = c := by
+        rw [List.getElem?_eq_getElem hi] at hci; exact Option.some.inj hci
+      rw [← hc]
+      exact (List.take_append_drop i _).symm.trans (by rw [List.drop_eq_getElem_cons hi])
+    -- the fault-free run as: prefix, the call, the rest
+    have hfull : run p.init (ops (calls C.ser p))
+        = run (apply (crashState C p i) c.op) (ops ((calls C.ser p).drop (i + 1))) := by
+      conv => lhs; rw [hsplit]
+      rw [ops_append, ops_cons, run_append, run_cons]
+      rfl
+    -- abort with the file system unchanged outside stream.json files
+    have die_ok : ∀ s', (∀ q, q.isLeaf = true → (∀ r t, q ≠ .file r t .json) → s'.get q = (crashState C p i).get q) →
+        NotSilent C p (.die s') := by
+      intro s' hs' t ht
+      rw [copyExists_iff]
+      exact noLoss_of_agree t.tid hs' ((copyExists_iff _ _).mp (copy_at_crash C p hwf hm t ht i))
+    -- return with the final tree and the ghost logs as in the fault-free run
+    have go_ok : ∀ s', (∀ q, q.isLeaf = true → (∀ tid n, q ≠ .file .tmp tid n) →
+          s'.get q = (run p.init (ops (calls C.ser p))).get q) → NotSilent C p (.returned s') := by
+      intro s' hs'
+      exact returned_ok (fun t ht hf => complete_congr hs' (complete_at_end C p hwf hm t ht hf))
+    unfold SiteOk at hso
+    cases hs : c.site <;> simp only [hs, Site.unchecked] at hck hso <;> try (cases hck)
+    · -- mkdirPath
+      obtain ⟨x, hop⟩ := hso
+      simp only [cont, hs, hop, ops_nil, run_nil]
+      exact die_ok _ (fun q _ _ => by cases f <;> rfl)
+    · -- statPath
+      obtain ⟨x, hop⟩ := hso
+      simp only [cont, hs, hop, ops_nil, run_nil]
+      exact die_ok _ (fun q _ _ => by cases f <;> rfl)
+    · -- openStream
+      obtain ⟨r, t, hop⟩ := hso
+      simp only [cont, hs, hop, ops_nil, run_nil]
+      exact die_ok _ (fun q _ _ => by cases f <;> rfl)
+    · -- writeStream
+      obtain ⟨r, t, d, hop⟩ := hso
+      cases f
+      case short =>
+        simp only [cont, hs, hop, applyFailed]
+        apply go_ok
+        intro q hq _
+        rw [hfull, hop, ops_cons]
+        exact get_short_write hq r t d _ _
+      all_goals
+        simp only [cont, hs, hop, ops_nil, run_nil]
+        exact die_ok _ (fun q _ _ => rfl)
+    · -- storeFopen
+      obtain ⟨r, t, hop⟩ := hso
+      simp only [cont, hs, hop, ops_nil, run_nil]
+      exact die_ok _ (fun q _ _ => by cases f <;> rfl)
+    · -- storeFputs: the fclose, then abort
+      obtain ⟨r, t, d, hop⟩ := hso
+      simp only [cont, hs, hop]
+      apply die_ok
+      intro q hq hj
+      have hne : q ≠ .file r t .json := hj r t
+      rw [ops_cons, ops_nil, get_run _ _ hq, evolve_cons, evolve_nil, effect_of_not_touch (by simp [touch, hne])]
+      cases f
+      case short =>
+        simp only [applyFailed]
+        rw [get_apply _ _ hq, effect_of_not_touch (by simp [touch, hne])]
+      all_goals rfl
+    · -- storeFclose
+      obtain ⟨r, t, hop⟩ := hso
+      simp only [cont, hs, hop, ops_nil, run_nil]
+      apply die_ok
+      intro q hq hj
+      have hne : q ≠ .file r t .json := hj r t
+      have : ∀ g, applyFailed (crashState C p i) kept (.fcloseW (.file r t .json)) g =
+          match (crashState C p i).get (.file r t .json) with
+          | some (.file disk pend) => (crashState C p i).set (.file r t .json) (.file (disk ++ pend.take kept) [])
+          | _ => crashState C p i := by intro g; cases g <;> rfl
+      rw [this]
+      split
+      · exact Fs.get_set_ne _ _ hne
+      · rfl
+    · -- moveFcloseIn: ignored, harmless
+      obtain ⟨x, hop⟩ := hso
+      simp only [cont, hs]
+      apply go_ok
+      intro q hq _
+      have : applyFailed (crashState C p i) kept c.op f = crashState C p i := by rw [hop]; cases f <;> rfl
+      rw [this, hfull]
+      exact get_skip hq _ (by rw [hop]; simp [touch]) _
+    · -- moveRemove: the source stays behind
+      obtain ⟨t, n, hop⟩ := hso
+      simp only [cont, hs]
+      apply go_ok
+      intro q hq hnt
+      have : applyFailed (crashState C p i) kept c.op f = crashState C p i := by rw [hop]; cases f <;> rfl
+      rw [this, hfull]
+      exact get_skip hq _ (by rw [hop]; simp only [touch, List.mem_cons, List.not_mem_nil, or_false]; exact hnt t n) _
+    · -- moveClosedir
+      simp only [cont, hs]
+      apply go_ok
+      intro q hq _
+      have : applyFailed (crashState C p i) kept c.op f = crashState C p i := by rw [hso]; cases f <;> rfl
+      rw [this, hfull]
+      exact get_skip hq _ (by rw [hso]; simp [touch]) _
+    · -- cleanRmdir
+      obtain ⟨x, hop, hx⟩ := hso
+      simp only [cont, hs]
+      apply go_ok
+      intro q hq _
+      have : applyFailed (crashState C p i) kept c.op f = crashState C p i := by rw [hop]; cases f <;> rfl
+      rw [this, hfull]
+      refine get_skip hq _ ?_ _
+      rw [hop]; simp only [touch, List.mem_cons, List.not_mem_nil, or_false]
+      intro e; subst e; rw [hq] at hx; cases hx
+
+/-! ### the code as it stands: the full statement is false
+
+-- OPEN: theorem single_fault_not_silent (C p) : WellFormed p → (p.tmpMode = false ∨ ReaddirOrder p) →
+--         ∀ i f kept, NotSilent C p (faultAt C.ser p i f kept)
+Refuted below at each call site whose failure the code ignores although data
+did not reach its destination (`Site.unchecked`).  After a fix that checks
+these results (abort, never unlink after a failed copy) the sites leave
+`Site.unchecked` and the `_partial` theorem is the full one. -/
+
+open Ovni.Rt.Fs.Witness
+
+def Outcome.isReturned : Outcome → Bool
+  | .returned _ => true
+  | _ => false
+
+theorem notSilent_returned {C : Codec} {p : Prog} {o : Outcome} (hr : Outcome.isReturned o = true)
+    (h : NotSilent C p o) : ∀ t ∈ p.threads, t.free = true → Complete C t o.fs ∧ CopyExists o.fs t.tid := by
+  cases o with
+  | returned s => exact h
+  | die s => cases hr
+  | killed s => cases hr
+
+instance (C : Codec) (t : ThreadProg) (s : Fs) : Decidable (Complete C t s) := by
+  unfold Complete; infer_instance
+
+def copyExistsB (s : Fs) (tid : Nat) : Bool :=
+  s.flushed tid == [] ||
+    [Root.tmp, Root.fin].any fun r =>
+      match s.get (.file r tid .obs) with
+      | some (.file d _) => d == s.flushed tid
+      | _ => false
+
+theorem copyExists_iff_B (s : Fs) (tid : Nat) : CopyExists s tid ↔ copyExistsB s tid = true := by
+  unfold CopyExists copyExistsB
+  simp only [Bool.or_eq_true, beq_iff_eq, List.any_cons, List.any_nil, Bool.or_false]
+  constructor
+  · rintro (h | ⟨r, d, pn, h1, h2⟩)
+    · exact Or.inl h
+    · right
+      cases r
+      · left; rw [h1]; simpa using h2
+      · right; rw [h1]; simpa using h2
+  · rintro (h | h | h)
+    · exact Or.inl h
+    · right
+      split at h
+      · rename_i d pn hg; exact ⟨.tmp, d, pn, hg, by simpa using h⟩
+      · cases h
+    · right
+      split at h
+      · rename_i d pn hg; exact ⟨.fin, d, pn, hg, by simpa using h⟩
+      · cases h
+
+instance (s : Fs) (tid : Nat) : Decidable (CopyExists s tid) :=
+  decidable_of_iff _ (copyExists_iff_B s tid).symm
+
+/-- Key `close-streamfd-unchecked` (direct mode): `close(streamfd)` reports a
+    deferred write error, `ovni_thread_free` ignores it and returns; the final
+    stream.obs lacks the last flush and no complete copy exists. -/
+theorem close_streamfd_unchecked :
+    ((calls wC.ser wDirect)[20]?).map (·.site) = some .closeStream ∧
+    ¬ NotSilent wC wDirect (faultAt wC.ser wDirect 20 .eio) := by
+  refine ⟨by decide, fun h => ?_⟩
+  have := notSilent_returned (by decide) h wT (by decide) rfl
+  revert this; decide
+
+/-- Key `move-opendir-failure-silent`: `opendir(thdir)` fails, nothing is
+    relocated, `ovni_thread_free` returns: the final trace has no stream. -/
+theorem move_opendir_failure_silent :
+    ((calls wC.ser wObsFirst)[31]?).map (·.site) = some .moveOpendir ∧
+    ¬ NotSilent wC wObsFirst (faultAt wC.ser wObsFirst 31 .eacces) := by
+  refine ⟨by decide, fun h => ?_⟩
+  have := notSilent_returned (by decide) h wT (by decide) rfl
+  revert this; decide
+
+/-- Key `move-readdir-failure-silent`: `readdir` fails, the loop ends as if
+    the directory were empty. -/
+theorem move_readdir_failure_silent :
+    ((calls wC.ser wObsFirst)[32]?).map (·.site) = some .moveReaddir ∧
+    ¬ NotSilent wC wObsFirst (faultAt wC.ser wObsFirst 32 .eio) := by
+  refine ⟨by decide, fun h => ?_⟩
+  have := notSilent_returned (by decide) h wT (by decide) rfl
+  revert this; decide
+
+/-- Key `move-ignores-copy-errors`: the `fwrite` of the stream.obs copy fails
+    (ENOSPC), the result is ignored, `remove(src)` follows: normal return, final
+    stream.obs empty, and the only complete copy has been unlinked. -/
+theorem move_ignores_copy_errors :
+    ((calls wC.ser wObsFirst)[38]?).map (·.site) = some .moveFwrite ∧
+    Outcome.isReturned (faultAt wC.ser wObsFirst 38 .enospc) = true ∧
+    ¬ Complete wC wT (faultAt wC.ser wObsFirst 38 .enospc).fs ∧
+    ¬ CopyExists (faultAt wC.ser wObsFirst 38 .enospc).fs 7 := by decide
+
+/-- … the same when the `fclose` of the copy fails (its final flush). -/
+theorem move_ignores_fclose_error :
+    ((calls wC.ser wObsFirst)[40]?).map (·.site) = some .moveFcloseOut ∧
+    Outcome.isReturned (faultAt wC.ser wObsFirst 40 .enospc) = true ∧
+    ¬ Complete wC wT (faultAt wC.ser wObsFirst 40 .enospc).fs ∧
+    ¬ CopyExists (faultAt wC.ser wObsFirst 40 .enospc).fs 7 := by decide
+
+/-- … and when `fopen(dst)` fails: the source survives, but the runtime
+    returns normally with the stream missing from the final trace. -/
+theorem move_ignores_fopen_error :
+    ((calls wC.ser wObsFirst)[36]?).map (·.site) = some .moveFopenDst ∧
+    Outcome.isReturned (faultAt wC.ser wObsFirst 36 .eacces) = true ∧
+    ¬ Complete wC wT (faultAt wC.ser wObsFirst 36 .eacces).fs ∧
+    CopyExists (faultAt wC.ser wObsFirst 36 .eacces).fs 7 := by decide
+
+theorem single_fault_not_silent_fails :
+    ¬ ∀ (C : Codec) (p : Prog), WellFormed p → (p.tmpMode = false ∨ ReaddirOrder p) →
+        ∀ i f kept, NotSilent C p (faultAt C.ser p i f kept) := by
+  intro h
+  exact close_streamfd_unchecked.2 (h wC wDirect (by unfold WellFormed; decide) (Or.inl rfl) 20 .eio 0)
+
+/-! ### non-vacuity -/
+
+/-- Checked sites exist and faults there do fire: a failing `write` aborts, a
+    short one is retried and the run completes. -/
+example : ((calls wC.ser wObsFirst)[25]?).map (·.site) = some .writeStream ∧
+    Outcome.isReturned (faultAt wC.ser wObsFirst 25 .enospc) = false ∧
+    Outcome.isReturned (faultAt wC.ser wObsFirst 25 .short) = true ∧
+    Complete wC wT (faultAt wC.ser wObsFirst 25 .short).fs := by decide
+
+/-- Direct mode: every call site but `close(streamfd)` is checked. -/
+example : ∀ c ∈ calls wC.ser wDirect, c.site.unchecked = true → c.site = .closeStream := by decide
+
 end Ovni.Props.C10
